@@ -119,6 +119,10 @@ func (ex *Exec) callVF(caller *frame, fn *ssa.Function, args []Value) (Value, bo
 		P.assert(c)
 		return nil, true
 	case "Assert":
+		if ex.tr != nil && ex.trOn() {
+			ex.tr.emit(ex, TraceEvent{Kind: "assert", Label: str(0), Args: []*smt.Term{args[1].(*smt.Term)}})
+			return nil, true
+		}
 		P.checkAssert(str(0), args[1].(*smt.Term))
 		return nil, true
 	case "And":
@@ -171,6 +175,68 @@ func (ex *Exec) callVF(caller *frame, fn *ssa.Function, args []Value) (Value, bo
 		ex.call(caller, args[1], nil)
 		ex.accessLog.tag = 0
 		return nil, true
+	case "Share":
+		if ex.tr != nil {
+			ex.trShare(args[0])
+		}
+		return nil, true
+	case "ShareWG":
+		if ex.tr != nil {
+			ex.trShareWG(args[0].(*Value))
+		}
+		return nil, true
+	case "EventBound":
+		if ex.tr != nil {
+			ex.tr.MaxEvents = cint(0)
+		}
+		return nil, true
+	case "TraceStart":
+		if ex.tr != nil {
+			ex.trStart()
+		}
+		return nil, true
+	case "Go":
+		ex.spawn(caller, args[0], nil)
+		return nil, true
+	case "WaitAll":
+		if ex.tr != nil {
+			ex.trWaitAll()
+			return nil, true
+		}
+		n := ex.quiesce()
+		if n > 0 {
+			P.failHere("deadlock", ex.describeBlocked())
+			panic(pathEnd{"deadlock-known"})
+		}
+		return nil, true
+	case "Begin", "End":
+		if ex.tr != nil && ex.trOn() {
+			r := ex.tr.fresh(ex, regW)
+			ex.tr.emit(ex, TraceEvent{Kind: strings.ToLower(name), Res: []*smt.Term{r}})
+			return wide(r), true
+		}
+		ex.clock++
+		return smt.BVC(64, uint64(ex.clock)), true
+	case "Put":
+		if ex.tr != nil && ex.trOn() {
+			ex.tr.emit(ex, TraceEvent{Kind: "put", Obj: rc(uint64(ex.tr.slot(str(0)))), Args: []*smt.Term{narrow(args[1].(*smt.Term))}, Label: str(0)})
+			return nil, true
+		}
+		if ex.slots == nil {
+			ex.slots = map[string]*smt.Term{}
+		}
+		ex.slots[str(0)] = args[1].(*smt.Term)
+		return nil, true
+	case "Get":
+		if ex.tr != nil && ex.trOn() {
+			r := ex.tr.fresh(ex, regW)
+			ex.tr.emit(ex, TraceEvent{Kind: "get", Obj: rc(uint64(ex.tr.slot(str(0)))), Res: []*smt.Term{r}, Label: str(0)})
+			return smt.Resize(r, 64, false), true
+		}
+		if v, ok := ex.slots[str(0)]; ok {
+			return v, true
+		}
+		return smt.BVC(64, 0), true
 	case "Track":
 		if ex.accessLog == nil {
 			ex.accessLog = &AccessLog{}
